@@ -86,6 +86,7 @@ def items(tier):
     for kappa in ("sym",):
         add("wrong-module", mod="wrong", relative_dx=False, seeds="use_df")
     add("correct-user-module", mod="wrong", kappa_one=True, relative_dx=False, seeds="use_df")
+    add("module-forgets-an-input", mod="forgets-input", relative_dx=False, seeds="use_df")
     add("zero-structure", mod="einsum", expr="dot2", relative_dx=False, seeds="use_df", zero_entry=True)
     add("zero-structure-off", mod="einsum", expr="dot2", relative_dx=False, seeds="use_df", zero_entry=True, keep_zero=False)
     add("zero-structure-rel", mod="einsum", expr="dot2", relative_dx=True, seeds="use_df", zero_entry=True)
@@ -125,6 +126,21 @@ def _build(V, cfg):
         sx = pym.Signal("x", x)
         m = Quad(sx)
         return m, [sx], m.sig_out, [sx] + list(m.sig_out), dict(kappa=kappa, a=a, x=x)
+    if cfg["mod"] == "forgets-input":
+        # a module whose _sensitivity forgets its second input (returns None for it): finite_difference must still perturb that
+        # input and report the pair (0, true derivative) - that is how the mistake becomes visible
+        x = V.reals("x", 2, nonzero=True)
+        z = V.reals("z", 2, nonzero=True)
+
+        class Forgets(pym.Module):
+            def _response(self, x, z):
+                return x * x + 3 * z
+
+            def _sensitivity(self, dy):
+                return 2 * x * dy, None
+        sx, sz = pym.Signal("x", x), pym.Signal("z", z)
+        m = Forgets([sx, sz])
+        return m, [sx, sz], m.sig_out, [sx, sz] + list(m.sig_out), dict()
     if cfg["mod"] == "slice":
         x = V.reals("x", 3, nonzero=True)
         z = V.reals("z", 2, nonzero=True)
